@@ -1,5 +1,5 @@
 """C20 - standard-atmosphere and airspeed conversions are consistent."""
-from vc.api import (harness, contract, repo, outcome, assume, close, RealRange, Choice)
+from vc.api import (harness, contract, repo, outcome, assume, close, RealRange, Choice, NATIVE_ABSTRACT)
 from spec import isa_spec
 
 AERO = repo("pyModeS.extra.aero")
@@ -119,3 +119,32 @@ def airspeed_orderings(V, H):
          timeout={"quick": 60000, "thorough": 600000})
 def mach_cas_inverse(M, H):
     assert close(AERO.cas2mach(AERO.mach2cas(M, H), H), M), "cas2mach(mach2cas(M)) == M"
+
+
+# TAS >= EAS at altitude, deductively in two steps (the compressible CAS >= EAS ordering stays bounded):
+#   (a) density(H) <= rho0 * (1 + 1e-6) for 0 <= H <= 20 km          - interval branch and bound on the real atmos()
+#   (b) tas2eas(V, H) <= V * (1 + 1e-6) whenever density(H) is at most that - z3 over the executed body of tas2eas,
+#       sqrt uninterpreted with the instances sqrt(x)^2 = x, sqrt >= 0
+@harness("C20", inputs={"H": RealRange(0, 20000)}, functions=[A + "density", A + "atmos"], body_of=ATMOS, idealised=True,
+         backend="ivbb", timeout={"quick": 120000, "thorough": 600000})
+def density_at_most_sea_level(H):
+    assert AERO.density(H) <= 1.225 * (1 + 0.000001), "air density at altitude does not exceed the sea-level density"
+
+
+def density_bounded_contract(H):
+    from vc.api import require, abstract_real
+    require(0 <= H and H <= 20000, "density: altitude between sea level and 20 km")
+    # lemma (a): some real in (0, rho0 (1 + 1e-6)] determined by H
+    return abstract_real("density", 0.0001, 1.225 * (1 + 0.000001), H)
+
+
+@harness("C20", inputs={"V": RealRange(0.5, 450), "H": RealRange(0, 20000)}, functions=[A + "tas2eas"],
+         body_of=[A + "tas2eas"], idealised=True, uf_axioms=True, overrides={A + "density": density_bounded_contract},
+         native_optional=True)
+def tas_at_least_eas(V, H):
+    e = AERO.tas2eas(V, H)
+    assert e <= V * (1 + 0.000001), "TAS >= EAS at altitude (to the 1e-6 of the sea-level constants)"
+    assert e > 0, "EAS is positive"
+
+
+NATIVE_ABSTRACT["density"] = lambda H: float(AERO.density(H))
